@@ -23,39 +23,13 @@ import z3
 
 from vlib import concolic as cx
 from vlib.common import CheckerError
+from vlib.stubs import Opaque, obox
 
 FN = "autograd.tracer.primitive.<locals>.f_wrapped"
 
 
-class Opaque:
-    """Plain (unboxed) value with a ghost term."""
-
-    def __init__(self, term):
-        self.term = term
-
-    def __repr__(self):
-        return f"Opaque({self.term!r})"
-
-
 class CtorBoom(Exception):
     pass
-
-
-_registered = {}
-
-
-def obox():
-    """Box class for Opaque values, registered through the public Box.register."""
-    import autograd.tracer as T
-
-    if T.__name__ not in _registered or _registered[T.__name__][0] is not T.Box:
-
-        class OBox(T.Box):
-            __slots__ = []
-
-        OBox.register(Opaque)
-        _registered[T.__name__] = (T.Box, OBox)
-    return _registered[T.__name__][1]
 
 
 def _getval_term(T, x):
